@@ -120,3 +120,33 @@ def classify(name, v, prop_prefix, unit, bounded=None, expect_covers=None):
             return Result(full, "E3", "undecided", v["time"], "cbmc", "only unwinding/unsupported failures: " + text, unit, bounded)
         return Result(full, "E3", "refuted", v["time"], "cbmc", text, unit, bounded)
     return Result(full, "E3", "undecided", v["time"], "cbmc", text, unit, bounded)
+
+
+class H:
+    """One Kani harness as an obligation: harness fn name, obligation label, unit (function under contract),
+    bounded = None (complete: loop-free or loops closed by unwinding assertions over all inputs) or the stated bound,
+    covers = number of cover properties when the harness is a vacuity guard, tiers it runs in."""
+    def __init__(self, harness, label, unit, bounded=None, covers=None, tiers=("quick", "thorough"), contract=None):
+        self.harness, self.label, self.unit, self.bounded, self.covers, self.tiers, self.contract = harness, label, unit, bounded, covers, tiers, contract
+
+
+def run_specs(prefix, specs, tier, timeout=1500, jobs=12, solver=None):
+    specs = [s for s in specs if tier in s.tiers]
+    if not specs: return []
+    verdicts, out, dt = run_harnesses([s.harness for s in specs], timeout=timeout, jobs=min(jobs, len(specs)), solver=solver)
+    res = []
+    for s in specs:
+        r = classify(s.harness, verdicts[s.harness], prefix, s.unit, bounded=s.bounded, expect_covers=s.covers)
+        r.name = "%s.%s" % (prefix, s.label)
+        if r.status == "refuted":
+            # concrete values from Kani's concrete playback (byte vectors in kani::any() order), attached verbatim
+            try:
+                vals, pout = playback(s.harness, timeout=min(timeout, 900))
+                r.counterexample = {"harness": s.harness, "kani_any_values_le_bytes": [v.hex() for v in vals],
+                                    "as_f64": [as_f64(v) for v in vals if len(v) == 8], "as_u64": [as_u64(v) for v in vals if len(v) in (1, 8)]}
+                r.replay = {"reproduced": bool(vals), "how": "Kani concrete playback of the failing harness on the real crate (cargo kani -Z concrete-playback): "
+                            "the harness itself calls the real function, so the byte vectors are the failing input", "harness": s.harness}
+            except Exception as e:
+                r.replay = {"reproduced": False, "error": repr(e)}
+        res.append(r)
+    return res
